@@ -16,9 +16,9 @@ HASHSEED_INDEPENDENT = False
 
 _VQ = ['search_advertises_one_goal_less', 'backward_search_ignores_prevs', 'forward_fact_not_added']
 TIERS = {
-    'quick': dict(fork=True, worlds=16, runs=5, batch=1, det_runs=2, soft_timeout=480,
-                  variants=_VQ, variant_budget=10, min_tests=25, extra_workers=3),
-    'thorough': dict(fork=True, worlds=64, runs=50, batch=1, det_runs=4, soft_timeout=900,
+    'quick': dict(fork=True, worlds=16, runs=5, batch=1, det_runs=2, soft_timeout=600,
+                  variants=_VQ[:1], variant_budget=10, min_tests=25, extra_workers=1),
+    'thorough': dict(fork=True, worlds=64, runs=30, batch=1, det_runs=4, soft_timeout=900,
                      variants=_VQ + ['rewrite_search_wrong_sym', 'solves_filter_inverted'],
                      variant_budget=40, min_tests=50),
 }
